@@ -515,11 +515,13 @@ impl<RW: QueueRW<T>, T> InnerRecv<RW, T> {
     pub fn recv(&self) -> Result<T, RecvError> {
         self.examine_signals();
         loop {
+            // Loaded before the attempt so it can never be ahead of the slot the
+            // attempt examines, even if another consumer of this stream advances it
+            let count = self.reader.load_count(Relaxed);
             match self.queue.try_recv(&self.reader) {
                 Ok(v) => return Ok(v),
                 Err((_, TryRecvError::Disconnected)) => return Err(RecvError),
                 Err((pt, TryRecvError::Empty)) => {
-                    let count = self.reader.load_count(Relaxed);
                     unsafe {
                         self.queue.waiter.wait(count, &*pt, &self.queue.writers);
                     }
@@ -784,6 +786,8 @@ impl<RW: QueueRW<T>, T> Stream for &FutInnerRecv<RW, T> {
     fn poll(&mut self) -> Poll<Option<T>, ()> {
         self.reader.examine_signals();
         loop {
+            // Loaded before the attempt, see InnerRecv::recv
+            let count = self.reader.reader.load_count(Relaxed);
             match self.reader.queue.try_recv(&self.reader.reader) {
                 Ok(msg) => {
                     self.prod_wait.notify_all();
@@ -791,7 +795,6 @@ impl<RW: QueueRW<T>, T> Stream for &FutInnerRecv<RW, T> {
                 }
                 Err((_, TryRecvError::Disconnected)) => return Ok(Async::Ready(None)),
                 Err((pt, _)) => {
-                    let count = self.reader.reader.load_count(Relaxed);
                     if unsafe { self.wait.fut_wait(count, &*pt, &self.reader.queue.writers) } {
                         return Ok(Async::NotReady);
                     }
